@@ -120,7 +120,7 @@ def w_stream(ids, fl, key, data, chunks, algo=None, size=None, sri=None, time=No
 def random_write(r, ids, key, data, fl=None, algo=None, big=False):
     """One of the write entry points, chosen at random.  Returns (ops, algo)."""
     fl = fl or r.pick(["s", "a"])
-    algo = algo or r.pick(L.ALGOS)
+    algo = algo or r.pick(L.ALL_ALGOS)
     mode = r.randrange(4)
     if mode == 0:
         return [w_oneshot(fl, algo, key, data)], algo
@@ -222,7 +222,7 @@ def gen_damage_programs(r, n, big=0.02):
     progs = []
     for i in range(n):
         ids = G.Ids()
-        algo = r.pick(L.ALGOS)
+        algo = r.pick(L.ALL_ALGOS)
         k1, k2 = b"victim", b"other"
         d1 = G.data(r, big=big)
         d2 = G.data(r, G.size(r)) + b"!"
@@ -306,7 +306,7 @@ def gen_roundtrip_programs(r, n, big=0.03):
         for j in range(r.randrange(1, 4)):
             key = G.key(r)
             d = G.data(r, big=big if j == 0 else 0)
-            algo = r.pick(L.ALGOS)
+            algo = r.pick(L.ALL_ALGOS)
             fl = r.pick("sa")
             mode = r.randrange(6)
             if mode == 0:
